@@ -577,3 +577,29 @@ pub fn run_tape_normalised(top: Layer, arg: &Q, public: bool, tape: &[u8], cap: 
     });
     r.ok()
 }
+
+
+thread_local! {
+    static SIGN_ORDER: RefCell<std::collections::HashMap<String, bool>> = RefCell::new(std::collections::HashMap::new());
+}
+
+/// Which of the two law-equivalent orders (sign then magnitude, or magnitude then sign) does the code use
+/// inside one iteration of the discrete Laplace sampler AT THIS SCALE? Probed on the real code with both
+/// draws answered by the interceptor; cached per scale. Defaults to "sign first" when neither order
+/// completes (the conformance check then reports what is wrong).
+pub fn sign_first_for(scale: &Q) -> bool {
+    let key = qs(scale);
+    if let Some(v) = SIGN_ORDER.with(|m| m.borrow().get(&key).copied()) {
+        return v;
+    }
+    let mask = Mask::of(&[Layer::Bernoulli, Layer::GeometricExp]);
+    let a = run_scripted(Layer::DiscreteLaplace, scale, false, mask, &[Outcome::Bool(false), Outcome::Unsigned(BigUint::one())]);
+    let v = if a.result.is_some() {
+        true
+    } else {
+        let b = run_scripted(Layer::DiscreteLaplace, scale, false, mask, &[Outcome::Unsigned(BigUint::one()), Outcome::Bool(false)]);
+        b.result.is_none()
+    };
+    SIGN_ORDER.with(|m| m.borrow_mut().insert(key, v));
+    v
+}
